@@ -46,6 +46,14 @@ func g04Outcome(what string) int {
 	if o == o04Panic {
 		g04Panicked = true
 		g04Fail("panic")
+		// the value a handler, agent key or signer panics with is arbitrary: a
+		// short text, an error, a long text in a multi-byte script
+		switch h04Sym(3, "panic-value") {
+		case 1:
+			panic(errors.New("model panic (an error value) in " + what))
+		case 2:
+			panic("模擬的恐慌：處理程序在執行期間發生了無法恢復的內部錯誤，請聯絡系統管理員")
+		}
 		panic("model panic in " + what)
 	}
 	return o
